@@ -497,10 +497,16 @@ fn kinds() -> Vec<C> {
 fn seed(kind: usize) -> ir::Module {
     let k = kinds()[kind].clone();
     // K at top level, nested at depth 2 under a list parent and under a fixed-arity parent
-    module(vec![
+    let mut m = module(vec![
         ("main", func(&[], vec![k.clone(), C::Composite("list".into(), vec![int(70), k.clone()]), C::IfTrue(b(int(71)), b(k))])),
         ("other", func(&["a"], vec![int(80), s("tail")])),
-    ])
+    ]);
+    // submodules with functions and cards of their own: a CardIndex addresses the functions of the
+    // module the API is called on, so none of these cards has an index in the root module
+    let deep = ir::Module { submodules: vec![], functions: vec![("leaf".into(), func(&[], vec![int(95), C::Not(b(int(96)))]))], imports: vec![] };
+    let sub = ir::Module { submodules: vec![("deep".into(), deep)], functions: vec![("inner".into(), func(&["p"], vec![int(90), C::Composite("l".into(), vec![int(91)])])), ("inner2".into(), func(&[], vec![s("sub tail")]))], imports: vec![] };
+    m.submodules.push(("sub".into(), sub));
+    m
 }
 
 fn units(tier: Tier) -> Vec<(usize, usize, bool)> {
@@ -538,7 +544,7 @@ impl Check for C16 {
     }
     fn info(&self, tier: Tier) -> CheckInfo {
         CheckInfo {
-            rule: "for each of 37 card kinds K (every kind with children, both empty and non-empty list parents, every leaf kind): a 2-function module with K at top level, nested under a list parent (CompositeCard) and under a fixed-arity parent (IfTrue); BFS over edit sequences insert_card / remove_card / replace_card at every valid index, at the index one and two past the end of every level, the empty index and an unknown function, and swap_cards over all ordered pairs of those (equal, ancestor/descendant, cross-function, invalid); after every edit the serialised module equals a plain tree model (insert shifts in list parents and replaces in fixed slots; removal from a fixed slot leaves a leaf placeholder; swap of a card with its ancestor or with an invalid index fails) and failed edits leave the serialisation byte-identical; in every state walk_cards / walk_cards_mut visit every card once with an index that get_card maps back to the same card (content and CardId), and num_children, iter_children(_mut), get_child(_mut)(0..n+1) agree for every card; get_card accepts exactly the valid indices. Non-trivial = state different from the seed".into(),
+            rule: "for each of 37 card kinds K (every kind with children, both empty and non-empty list parents, every leaf kind): a 2-function module (with a submodule that has two functions and a nested submodule, all with cards of their own) with K at top level, nested under a list parent (CompositeCard) and under a fixed-arity parent (IfTrue); BFS over edit sequences insert_card / remove_card / replace_card at every valid index, at the index one and two past the end of every level, the empty index and an unknown function, and swap_cards over all ordered pairs of those (equal, ancestor/descendant, cross-function, invalid); after every edit the serialised module equals a plain tree model (insert shifts in list parents and replaces in fixed slots; removal from a fixed slot leaves a leaf placeholder; swap of a card with its ancestor or with an invalid index fails) and failed edits leave the serialisation byte-identical; in every state walk_cards / walk_cards_mut visit every card once with an index that get_card maps back to the same card (content and CardId), and num_children, iter_children(_mut), get_child(_mut)(0..n+1) agree for every card; get_card accepts exactly the valid indices. Non-trivial = state different from the seed".into(),
             bound: format!("{} searches: depth 1 with swap and depth 2 without swap for every kind{}", units(tier).len(), if tier == Tier::Thorough { ", depth 2 with swap" } else { "" }),
             exhaustive: true,
             assumptions: vec!["the placeholder left by removing a card from a fixed slot is the implementation's choice (any leaf card); the statement only fixes list parents".into(), "inserted / replacing card is always the same marker card".into()],
